@@ -798,6 +798,23 @@ structure Inv (fs : FS) : Prop where
   live : ∀ (i : Nat) (n : Name) (j : Nat), (n, j) ∈ (fs.node i).children → j < fs.nodes.length
   files : ∀ i : Nat, (fs.node i).dir = false → (fs.node i).children = []
 
+/-- a name that may label an edge of the graph: exactly what `io/fs.ValidPath` demands of a path
+element (non-empty, no separator, not `.`, not `..`) -/
+def NameOK (n : Name) : Prop := n ≠ [] ∧ '/' ∉ n ∧ n ≠ dot ∧ n ≠ dotdot
+
+/-- The node graph is a tree as far as directories go (files may have several names: hard links).
+True of every state reachable through the operations since `Link` refuses directories (F17h) and no
+method enters a node under `.`, `..` or `/` (F15b, F17g). -/
+structure Tree (fs : FS) : Prop where
+  /-- **no_dot_edges**: every edge is labelled by a valid path element -/
+  names : ∀ (i : Nat) (n : Name) (j : Nat), (n, j) ∈ (fs.node i).children → NameOK n
+  /-- an edge to a directory leads from an older node to a younger one (directories are entered
+      into their parent when they are allocated and never again): there is no directory cycle -/
+  up : ∀ (i : Nat) (n : Name) (j : Nat), (n, j) ∈ (fs.node i).children → (fs.node j).dir = true → i < j
+  /-- a directory has at most one parent edge -/
+  once : ∀ (i1 i2 : Nat) (n1 n2 : Name) (j : Nat), (n1, j) ∈ (fs.node i1).children →
+    (n2, j) ∈ (fs.node i2).children → (fs.node j).dir = true → i1 = i2 ∧ n1 = n2
+
 /-- `ReadDir` of a node: names with their nodes, sorted by name -/
 def readdir (fs : FS) (d : Ino) : List (Name × Ino) := sortNames (fs.node d).children
 
